@@ -190,6 +190,10 @@ def step (st : St) (j : Json) : St × List String :=
   | "build" =>
     (st, [showBuild (build cfg (reOf st.re) st.pd ((jArr j "wallets").map (walletOf st)))])
   | "validate" =>
+    -- array envelopes: the go-did verdict per presented entry (data); the model says whether the envelope parses
+    let entries : List J := (jArr j "entries").map (fun e => if e.getStr?.toOption == some "vp" then J.str "vp" else J.null)
+    let parsedEntries := parseArrayEnvelope (fun e => match e with | .str _ => some {} | _ => none) entries
+    if jHas j "entries" && !parsedEntries.isOk then (st, ["validate envelope-err"]) else
     if jBool j "envErr" then (st, ["validate envelope-err"]) else
     let envJ := toJ (jObj j "env")
     let maps := ((jArr j "maps").map toJ).toArray
